@@ -43,7 +43,10 @@ PowM(dummy) == \A a \in {"0", "1", "-3", "2", "123456789abcdef0fedcba9876543210"
 Ints(dummy) == \A i \in -5000..5000 : ZFromInt(i) = P!ZFromInt(i) /\ ZToInt(ZFromInt(i)) = i /\ P!ZToInt(P!ZFromInt(i)) = i
 Primes(dummy) == /\ \A i \in 0..400 : ZIsPrime(ZFromInt(i)) = P!ZIsPrime(P!ZFromInt(i))
                   /\ \A a \in {"0", "1", "2", "71"} : ZNextPrime(a) = P!ZNextPrime(a)
-Comb(dummy) == /\ \A n \in 0..40 : /\ ZFac(n) = P!ZFac(n) /\ ZPrimorial(n) = P!ZPrimorial(n)
+StatSeq == <<"0", "1", "ff", "10", "deadbeef", "7", "8000000000000001", "3", "1", "0", "fe", "11">>
+Comb(dummy) == /\ \A b \in {0, 1, 4, 63}, lag \in {1, 2, 4} : SeqBitOnes(StatSeq, b) = P!SeqBitOnes(StatSeq, b) /\ SeqBitAgree(StatSeq, b, lag) = P!SeqBitAgree(StatSeq, b, lag)
+               /\ \A b \in {"0", "1", "f"} : SeqBucket(StatSeq, 4, b) = P!SeqBucket(StatSeq, 4, b)
+               /\ \A n \in 0..40 : /\ ZFac(n) = P!ZFac(n) /\ ZPrimorial(n) = P!ZPrimorial(n)
                             /\ ZFib(ZFromInt(n)) = P!ZFib(P!ZFromInt(n)) /\ ZLuc(ZFromInt(n)) = P!ZLuc(P!ZFromInt(n))
                             /\ \A m \in 1..5 : ZMFac(ZFromInt(n), ZFromInt(m)) = P!ZMFac(P!ZFromInt(n), P!ZFromInt(m))
         /\ \A n \in Vals, k \in 0..6 : ZBin(n, ZFromInt(k)) = P!ZBin(n, P!ZFromInt(k))
